@@ -38,6 +38,10 @@ class Box:
     pass
 
 
+class PlantSystem(System):
+    """A user's own subclass of System (the latest system may be one)."""
+
+
 def _idx(part):
     try:
         return int(part.name.split('_')[-1].split('.')[0])
@@ -58,6 +62,9 @@ def build(kit):
     else:
         o['src'] = Source('S', PartGenerator('p', 1.0), kit['src_c'], INF if kit['budget'] == 'inf' else kit['budget'])
     o['P'] = Tgt('P', [o['src']], kit['p_c'])
+    if kit.get('off'):
+        # a one-shot offset requested right after construction (before the first run for the early twin)
+        o['P'].offset_next_cycle_time(kit['off'])
     o['B'] = Buffer('B', [o['P']], kit['b_delay'], kit['b_cap'])
     gh = PartHandler('GH', None, kit['gh_c'])
     o['GH'] = gh
@@ -68,6 +75,9 @@ def build(kit):
     o['H'] = PartHandler('H', [o['Ga'], o['Gb']], kit['h_c'])
     o['BA'] = PartBatcher('BA', [o['H']], output_batch_size=kit['batch'])
     o['K'] = Sink('K', [o['BA']], kit['k_c'])
+    if kit.get('off'):
+        o['K'].offset_next_cycle_time(kit['off'])
+    o['E'] = PartHandler('', None, 0)       # an empty string is a name like any other
     o['M'] = Maintainer('M', capacity=1, value=10)
     box = Box()
     box.log = []
@@ -81,7 +91,7 @@ def build(kit):
     return o
 
 
-ASSET_ROLES = ['src', 'P', 'B', 'GH', 'GP', 'Ga', 'Gb', 'H', 'BA', 'K', 'M', 'S', 'ps', 'os', 'cms']
+ASSET_ROLES = ['src', 'P', 'B', 'GH', 'GP', 'Ga', 'Gb', 'H', 'BA', 'K', 'E', 'M', 'S', 'ps', 'os', 'cms']
 
 
 def observe(sysm, o, shift):
@@ -126,7 +136,7 @@ def run_twin(case, late):
         older.append((s_old, PartHandler(f'old{i}')))
         if case.get('older_ran'):
             s_old.simulate(1, print_summary=False)      # a replaced system that has already run must be refused too
-    s = System()
+    s = PlantSystem() if case.get('subsys') else System()
     env = s.env
     between = bool(case.get('between')) and late
     o = {}
@@ -193,8 +203,8 @@ def run_twin(case, late):
         raise Violation('C20.find', f'emptying the list returned by find_assets() left {len(s._assets)} of {n_all} assets '
                         f'registered')
     assets = s._assets
-    names = [None, 'P', 'K', 'nope']
-    ids = [None, o['P'].id, -3]
+    names = [None, 'P', 'K', 'nope', '']
+    ids = [None, o['P'].id, -3, 0]
     types = [None, PartHandler, Tgt, Sink, Asset]
     subs = [None, PartHandler, PartProcessor, Asset, Maintainer]
     nfind = 0
